@@ -277,8 +277,51 @@ func cmdCheck(args []string) int {
 	prepareScripts(obls)
 	obls = append(obls, census...)
 
+	// obligations of clauses marked "slow" are solved in the thorough tier and at relock only;
+	// in the quick tier they are left out (their lock entries are then not expected)
+	slowBase := map[string]bool{}
+	for _, q := range eng.cf.Order {
+		c := eng.cf.Contracts[q]
+		var cls []*Clause
+		cls = append(cls, c.Ensures...)
+		cls = append(cls, c.Requires...)
+		for _, aa := range c.AssertBefore {
+			if aa.Cl != nil {
+				cls = append(cls, aa.Cl)
+			}
+		}
+		for _, ls := range c.Loops {
+			cls = append(cls, ls.Invariants...)
+		}
+		for _, cl := range cls {
+			if cl.Slow && cl.Name != "" {
+				slowBase[q+"."+cl.Name] = true
+				slowBase[q+"."+cl.Name+".entry"] = true
+				slowBase[q+"."+cl.Name+".preserve"] = true
+			}
+		}
+	}
+	nSlowSkipped := 0
+	if *tier != "thorough" && !*relock {
+		var keepO []*Obligation
+		for _, o := range obls {
+			if slowBase[o.Base] {
+				nSlowSkipped++
+				continue
+			}
+			keepO = append(keepO, o)
+		}
+		obls = keepO
+	}
 	// 2. solve
 	to := 10 * time.Second
+	if *relock {
+		for _, o := range obls {
+			if slowBase[o.Base] {
+				o.LongBudget = true
+			}
+		}
+	}
 	if *tier == "thorough" {
 		to = 60 * time.Second
 	}
@@ -581,7 +624,7 @@ func cmdCheck(args []string) int {
 	// locked obligations that were not generated at all
 	var missing []string
 	for b := range locked {
-		if groups[b] == nil && !strings.HasSuffix(b, ".safety.complete") {
+		if groups[b] == nil && !strings.HasSuffix(b, ".safety.complete") && !(slowBase[b] && *tier != "thorough") {
 			missing = append(missing, b)
 		}
 	}
